@@ -8,6 +8,18 @@ PY = "/venv/bin/python"
 
 # id -> (technique, level text, level note, design ref)
 CHECKS = {
+    "C09": (
+        "Hypothesis over (paragraph layout, sequence of mixed markup insertions, removals) with independent lxml projections (ODF white-space aware plain text, raw text offsets, linearised text with wrapper marks) as oracle",
+        "Paragraphs assembled from generated pieces receive 1-4 generated insertions (span/link by regex or offset, bookmarks, reference marks, notes, annotations in every addressing form) and removals; the readable text must be unchanged, wrappers must hold exactly the regex matches / designated substring at the right place, empty marks must sit at the designated raw offset, compound forms must equal the documented pair of calls, unmatched addresses must leave the XML byte-identical.",
+        "Layouts are built through the API (text nodes in normal form); fields that add their own text are out of scope.",
+        "DESIGN.md 3/C09",
+    ),
+    "C16": (
+        "Hypothesis differential testing against Python re applied per text node of the lxml tree (+ atheris on pattern|text strings in thorough)",
+        "For generated element trees, patterns of a regex family and replacement strings, replace() counts, substitution results per text node, skeleton preservation, the search family on the element's own text, and the ODF reading of formatted replacements are compared with an independent re-based model.",
+        "Search family judged on elements without links/notes and without tail; formatted mode judged where the docstring applies it (text owned by Paragraph/Span/Header).",
+        "DESIGN.md 3/C16",
+    ),
     "C05": (
         "exhaustive enumeration of short strings and split points + Hypothesis over a rich alphabet (+ atheris in thorough), with an independent ODF 6.1.2 white-space interpreter as oracle",
         "Every string over a 7-character alphabet up to a length bound, in all 2-way splits, is turned into Paragraph/Header/Span; reported text, re-parsed text and class, C14N stability and the text an independent white-space-collapsing consumer reads must all equal the input. Random long strings over a rich alphabet go beyond the bound.",
